@@ -236,9 +236,11 @@ def gen_attrs(rng, narr_min_real, sub=False, allow_nnps=True):
     elif r < 0.4:
         a['start'] = ['k', 0]
     r = rng.random()
-    if r < 0.2:
-        a['stop'] = ['n', rng.choice([2, 3, 4])]
-    elif r < 0.35:
+    if r < 0.27:
+        # numeric stop_idx: gen_variant sizes every array so that the stop is
+        # inside the array, and (hand-made ghosts) often beyond the real count
+        a['stop'] = ['n', rng.choice([2, 3, 4, 5, 6, 7, 8])]
+    elif r < 0.47:
         a['stop'] = ['k', 1]
     if not sub and rng.random() < 0.45:
         a['iter'] = True
@@ -292,11 +294,137 @@ def gen_eqs(rng, narr, next_id, attrs, allow_mover):
     return eqs
 
 
+def rand_hooks(rng, need=None):
+    """random hook subset; `need` = one of these hooks is guaranteed"""
+    hooks = [hk for hk in HOOKS if rng.random() < 0.4]
+    if need and not any(hk in hooks for hk in need):
+        add = rng.choice(need)
+        hooks = [hk for hk in HOOKS if hk in hooks or hk == add]
+    return hooks
+
+
+def loop_pairs(eqs):
+    """the (dest, source) pairs of one group that get a neighbour loop, in the
+    documented order (destinations and sources by first appearance)"""
+    out = []
+    for d in first_appearance([e['dest'] for e in eqs]):
+        mine = [e for e in eqs if e['dest'] == d]
+        for s_ in first_appearance([x for e in mine for x in e['src']]):
+            if any(s_ in e['src'] and ('lp' in e['hooks'] or 'la' in e['hooks'])
+                   for e in mine):
+                out.append((d, s_))
+    return out
+
+
+def top_eqs(top):
+    if top['kind'] == 'leaf':
+        return top['eqs']
+    return [e for sub in top['subs'] for e in sub['eqs']]
+
+
+def top_loop_pairs(top):
+    if top['kind'] == 'leaf':
+        return loop_pairs(top['eqs'])
+    return [p for sub in top['subs'] for p in loop_pairs(sub['eqs'])]
+
+
+def backedge_tops(prog):
+    """indices of the iterated groups whose neighbour loops are entered in a
+    different NNPS context on the first pass and on the later ones: the group
+    before ends on the pair the body starts with, the body ends on another"""
+    out = []
+    for gi in range(1, len(prog['tops'])):
+        top, prev = prog['tops'][gi], prog['tops'][gi - 1]
+        if not top['attrs']['iter']:
+            continue
+        body, before = top_loop_pairs(top), top_loop_pairs(prev)
+        if body and before and len(set(body)) >= 2 and before[-1] == body[0] \
+                and body[-1] != body[0]:
+            out.append(gi)
+    return out
+
+
+def gen_chain_program(rng):
+    """an unconditional group that ends on the neighbour loop of one (dest,
+    source) pair, followed by an iterated group (plain or with sub-groups) whose
+    body starts with the same pair, has at least one more pair, and runs two or
+    more passes: the pair processed before the body's first loop differs between
+    the first pass and the back-edge of the iteration"""
+    narr = rng.choice([2, 2, 3])
+    next_id = [1]
+
+    def eq(dest, src, need=None, hooks=None):
+        e = {'id': next_id[0], 'dest': dest, 'src': src,
+             'hooks': rand_hooks(rng, need) if hooks is None else hooks, 'shift': 0.0}
+        next_id[0] += 1
+        return e
+    d = rng.randrange(narr)
+    s_ = rng.randrange(narr)
+    others = [(dd, ss) for dd in range(narr) for ss in range(narr) if (dd, ss) != (d, s_)]
+    prog = {'arrays': ['a%d' % i for i in range(narr)],
+            'domain': rng.choice(['none', 'none', 'periodic']), 'flat': False, 'tops': []}
+    # optional unrelated group in front
+    if rng.random() < 0.3:
+        a = gen_attrs(rng, 0, allow_nnps=False)
+        prog['tops'].append({'kind': 'leaf', 'attrs': a,
+                             'eqs': gen_eqs(rng, narr, next_id, a, False)})
+    # the group before: no condition, no NNPS refresh; destination d last, and
+    # s_ the last source of d
+    a = gen_attrs(rng, 0, allow_nnps=False)
+    a['cond'] = False
+    eqs = []
+    for dd in range(narr):
+        if dd != d and rng.random() < 0.4:
+            eqs.append(eq(dd, rng.sample(range(narr), rng.choice([0, 1, 2]))))
+    if rng.random() < 0.4:
+        src = [x for x in range(narr) if x != s_]
+        eqs.append(eq(d, [rng.choice(src)]))
+    eqs.append(eq(d, [s_], need=['lp', 'la']))
+    prog['tops'].append({'kind': 'leaf', 'attrs': a, 'eqs': eqs})
+    # the iterated group
+    a = gen_attrs(rng, 0)
+    a['cond'] = False
+    a['iter'] = True
+    a['min'] = rng.choice([0, 1, 2, 2, 3])
+    a['max'] = max(a['min'], rng.choice([2, 3, 4]))
+    a['nnps'] = a['nnps'] and rng.random() < 0.5
+    d2, s2 = rng.choice(others)
+    first = eq(d, [s_] + ([x for x in range(narr) if x != s_][:1]
+                          if rng.random() < 0.3 else []), need=['lp', 'la'])
+    more = [eq(d2, [s2], need=['lp', 'la'])]
+    if rng.random() < 0.5:
+        dd, ss = rng.choice(others)
+        more.append(eq(dd, [ss]))
+    if rng.random() < 0.35:
+        more.append(eq(rng.randrange(narr), []))
+    if rng.random() < 0.5:
+        prog['tops'].append({'kind': 'leaf', 'attrs': a, 'eqs': [first] + more})
+    else:
+        subs = []
+        sa = gen_attrs(rng, 0, sub=True, allow_nnps=False)
+        sa['cond'] = False
+        k = rng.randrange(len(more) + 1)
+        subs.append({'attrs': sa, 'eqs': [first] + more[:k]})
+        if more[k:]:
+            sa = gen_attrs(rng, 0, sub=True, allow_nnps=False)
+            subs.append({'attrs': sa, 'eqs': more[k:]})
+        prog['tops'].append({'kind': 'parent', 'attrs': a, 'subs': subs})
+    # optional group behind
+    if rng.random() < 0.4:
+        a = gen_attrs(rng, 0)
+        prog['tops'].append({'kind': 'leaf', 'attrs': a,
+                             'eqs': gen_eqs(rng, narr, next_id, a, True)})
+    return prog
+
+
 def gen_program(rng, kind=None):
+    kind = kind or rng.choice(['flat', 'groups', 'groups', 'groups', 'mixed', 'mixed',
+                               'chain'])
+    if kind == 'chain':
+        return gen_chain_program(rng)
     narr = rng.choice([1, 2, 2, 3])
     domain = rng.choice(['none', 'none', 'periodic'])
     next_id = [1]
-    kind = kind or rng.choice(['flat', 'groups', 'groups', 'groups', 'mixed', 'mixed'])
     prog = {'arrays': ['a%d' % i for i in range(narr)], 'domain': domain,
             'flat': kind == 'flat', 'tops': []}
     if kind == 'flat':
@@ -321,25 +449,47 @@ def gen_program(rng, kind=None):
     return prog
 
 
-def gen_variant(rng, prog):
+def max_numeric_stop(prog):
+    """largest numeric stop_idx of the program: every destination array must be
+    at least this long (ASSUMPTIONS: indices are within the array)"""
+    return max([a['stop'][1] for _, a in all_attrs(prog)
+                if a['stop'] is not None and a['stop'][0] == 'n'] + [0])
+
+
+def gen_variant(rng, prog, first=False):
     narr = len(prog['arrays'])
+    maxstop = max_numeric_stop(prog)
     arrs = []
     for _ in range(narr):
         if prog['domain'] == 'periodic':
-            nreal = rng.choice([4, 5, 6, 8])
+            # the ghosts are made (and re-made at every NNPS refresh) by the
+            # DomainManager, their number depends on the positions: explicit
+            # stops stay within the real particles here
+            nreal = max(rng.choice([4, 5, 6, 8]), maxstop)
             xs = sorted(rng.sample(range(GRID), nreal))
             x = [v / GRID for v in xs]
-            gx = []
+            gx, gt = [], []
+            c1 = min(rng.choice([2, 3, 4, nreal]), nreal)
         else:
-            nreal = rng.choice([4, 5, 6, 7])
-            nghost = rng.choice([0, 1, 2, 3])
+            # hand-made non-local particles, stored after the real ones:
+            # tag 2 = Ghost, tag 1 = Remote
+            nreal = rng.choice([3, 4, 5, 6, 7])
+            nghost = max(rng.choice([0, 1, 2, 3, 4]), maxstop - nreal)
             pts = rng.sample(range(-8, 40), nreal + nghost)
             x = [v / GRID for v in pts[:nreal]]
             gx = [v / GRID for v in pts[nreal:]]
-        # named start (c0) and stop (c1); stop never beyond the real count
+            gt = [rng.choice([2, 2, 1]) for _ in gx]
+            # a named stop may select ghost/remote destinations as well
+            c1 = rng.choice([2, 3, 4, nreal, nreal + 1, nreal + nghost,
+                             nreal + nghost])
+            c1 = min(c1, nreal + nghost)
+        # named start (c0) and stop (c1)
         c0 = rng.choice([0, 1, 2])
-        c1 = rng.choice([2, 3, 4, nreal])
-        arrs.append({'x': x, 'gx': gx, 'c': [c0, min(c1, nreal)]})
+        arrs.append({'x': x, 'gx': gx, 'gt': gt, 'c': [c0, c1]})
+    forced = prog.get('force', {}).get('arrays')
+    if forced and first:
+        # the minimised input of a corpus program (first variant only)
+        arrs = [dict(a) for a in forced]
     cond = {}
     for gid, a in all_attrs(prog):
         if a['cond']:
@@ -355,6 +505,8 @@ def gen_variant(rng, prog):
             c['rest'] = True
     for gid, sc in prog.get('force', {}).get('cond', {}).items():
         cond[gid] = sc
+    for eid, sc in prog.get('force', {}).get('conv', {}).items():
+        conv[eid] = sc
     return {'arrays': arrs, 'cond': cond, 'conv': conv,
             't': rng.choice([0.0, 0.5, 1.25]), 'dt': rng.choice([0.125, 0.0625])}
 
@@ -420,7 +572,8 @@ def _worker(idx, prog, variants, work):
         pas = []
         for aid, av in enumerate(var['arrays']):
             x = np.array(av['x'] + av['gx'], dtype=float)
-            tag = np.array([0] * len(av['x']) + [2] * len(av['gx']), dtype=np.int32)
+            tag = np.array([0] * len(av['x']) + list(av.get('gt', [2] * len(av['gx']))),
+                           dtype=np.int32)
             pa = get_particle_array(name=names[aid], x=x,
                                     h=np.ones_like(x) * H_SMOOTH, tag=tag)
             pa.add_constant('aid', np.array([aid], dtype=np.int32))
@@ -525,7 +678,25 @@ def _worker(idx, prog, variants, work):
             if c03h.SPY_ON:
                 c03h.SNAPS.append(snapshot(self))
 
+        def set_context(self, src_index, dst_index):
+            # the (source, destination) pair the evaluation last bound the NNPS
+            # to; the snapshot's own queries re-bind it and must put it back, so
+            # that the neighbour lists the generated loops iterate are the ones
+            # of the context the generated code itself established
+            if not c03h.IN_SNAPSHOT:
+                c03h.LAST_CTX = (src_index, dst_index)
+            LinkedListNNPS.set_context(self, src_index, dst_index)
+
     def snapshot(nnps):
+        c03h.IN_SNAPSHOT = True
+        try:
+            return _snapshot(nnps)
+        finally:
+            if c03h.LAST_CTX is not None:
+                LinkedListNNPS.set_context(nnps, *c03h.LAST_CTX)
+            c03h.IN_SNAPSHOT = False
+
+    def _snapshot(nnps):
         ps = nnps.particles
         snap = {'sizes': [[p.get_number_of_particles(True),
                            p.get_number_of_particles(False)] for p in ps],
@@ -547,6 +718,7 @@ def _worker(idx, prog, variants, work):
         pas = make_arrays(var)
         c03h.SPY_ON = False
         c03h.SNAPS = []
+        c03h.LAST_CTX = None
         if prog['domain'] == 'periodic':
             dm = DomainManager(xmin=0.0, xmax=1.0, periodic_in_x=True)
             nnps = Spy(dim=1, particles=pas, domain=dm, radius_scale=RADIUS_SCALE)
@@ -733,6 +905,7 @@ class SpecRun:
         self.epoch = 0
         self.ncond = {}
         self.nconv = {}
+        self.passes = {}      # gid -> passes of an iterated group (bookkeeping)
 
     # what the evaluation reads from outside
     def size(self, a, real):
@@ -828,7 +1001,7 @@ class SpecRun:
                 return
         body()
 
-    def repeat(self, a, eqs, one_pass):
+    def repeat(self, a, eqs, one_pass, gid=None):
         if not a['iter']:
             one_pass()
             return
@@ -836,6 +1009,7 @@ class SpecRun:
         while True:
             one_pass()
             count += 1
+            self.passes[gid] = count
             if count >= a['min']:
                 res = [self.conv(e['id']) for e in eqs]    # all are asked
                 for e, b in zip(eqs, res):
@@ -851,7 +1025,7 @@ class SpecRun:
             a = top['attrs']
             if top['kind'] == 'leaf':
                 self.guarded(gid, a, lambda: self.repeat(
-                    a, top['eqs'], lambda: self.group_pass(gid, a, top['eqs'])))
+                    a, top['eqs'], lambda: self.group_pass(gid, a, top['eqs']), gid))
             else:
                 def parent_pass():
                     if a['pre']:
@@ -866,7 +1040,7 @@ class SpecRun:
                     if a['post']:
                         self.ev.append('post:' + gid)
                 eqs = [e for sub in top['subs'] for e in sub['eqs']]
-                self.guarded(gid, a, lambda: self.repeat(a, eqs, parent_pass))
+                self.guarded(gid, a, lambda: self.repeat(a, eqs, parent_pass, gid))
         return self.ev
 
 
@@ -944,6 +1118,26 @@ def check_variant(R, prog, var, res, tag, model_out):
     R.count('domain:' + prog['domain'])
     R.count('narr:%d' % len(prog['arrays']))
     R.count('epochs:%d' % (len(res['snaps']) - 1))
+    sizes0 = res['snaps'][0]['sizes']
+    named0 = res['snaps'][0]['named']
+    if any(na > nr for nr, na in sizes0):
+        R.count('arrays-with-ghost-or-remote-particles',
+                sum(1 for nr, na in sizes0 if na > nr))
+    for gid, a, eqs in all_leaves(prog):
+        if a['stop'] is None:
+            continue
+        for d in first_appearance([e['dest'] for e in eqs]):
+            stop = a['stop'][1] if a['stop'][0] == 'n' else named0[d][a['stop'][1]]
+            if stop > sizes0[d][0]:
+                # the destinations selected by the explicit stop_idx include
+                # ghost/remote particles
+                R.count('dest-range:explicit-%s-stop-beyond-real:real=%d:%s' % (
+                    'numeric' if a['stop'][0] == 'n' else 'named', a['real'],
+                    'default-start' if a['start'] == ['n', 0] else 'with-start'))
+    if not wfclass:
+        for gi in backedge_tops(prog):
+            R.count('iterated-group-entered-from-its-own-first-pair:%s' % (
+                'passes>=2' if sr.passes.get(str(gi), 0) >= 2 else 'one-pass-or-skipped'))
     nontrivial = len(kinds) >= 4 and len(obs) >= 10
     sample = None
     if tag < 2:
@@ -1114,6 +1308,52 @@ def corpus():
          'subs': [
              {'attrs': A(cond=True), 'eqs': [E(1, 0, [0], 'in,lp')]},
              {'attrs': A(pre=True, post=True), 'eqs': [E(2, 0, [], 'lp,rd')]}]}]})
+    # 7. (minimised from a seeded defect) explicit stop_idx beyond the number of
+    # real particles: N = stop_idx whatever `real` says; ghost (a0) and remote
+    # (a1) destinations, numeric and named stops, with and without start_idx
+    progs.append({'arrays': ['a0', 'a1'], 'domain': 'none', 'flat': False,
+                  'force': {'arrays': [
+                      {'x': [0 / GRID, 5 / GRID, 9 / GRID, 14 / GRID],
+                       'gx': [18 / GRID, 22 / GRID], 'gt': [2, 2], 'c': [2, 5]},
+                      {'x': [2 / GRID, 11 / GRID, 20 / GRID],
+                       'gx': [7 / GRID, 16 / GRID, 25 / GRID], 'gt': [1, 1, 2], 'c': [1, 6]}]},
+                  'tops': [
+        {'kind': 'leaf', 'attrs': A(stop=['n', 6]),
+         'eqs': [E(1, 0, [0], 'in,lp,pl')]},
+        {'kind': 'leaf', 'attrs': A(start=['k', 0], stop=['k', 1]),
+         'eqs': [E(2, 0, [1], 'in,ip,la'), E(3, 1, [0], 'in,lp,pl')]},
+        {'kind': 'leaf', 'attrs': A(real=False, stop=['n', 6]),
+         'eqs': [E(4, 1, [1], 'in,lp')]},
+        {'kind': 'leaf', 'attrs': A(start=['n', 1], stop=['n', 5]),
+         'eqs': [E(5, 0, [], 'in,lp,pl'), E(6, 1, [0, 1], 'la')]},
+        {'kind': 'leaf', 'attrs': A(real=False, start=['k', 0], stop=['k', 1]),
+         'eqs': [E(7, 0, [0], 'in,pl')]},
+        {'kind': 'parent', 'attrs': A(), 'subs': [
+            {'attrs': A(stop=['k', 1]), 'eqs': [E(8, 1, [0], 'in,lp')]},
+            {'attrs': A(start=['n', 3], stop=['n', 6]), 'eqs': [E(9, 0, [1], 'ip,pl')]}]}]})
+    # 8. (minimised from a seeded defect) the neighbours iterated on the second
+    # and later passes of an iterated group: the group before ends on the pair
+    # (a0 <- a0) the body starts with, the body ends on (a0 <- a1)
+    progs.append({'arrays': ['a0', 'a1'], 'domain': 'none', 'flat': False,
+                  'force': {'arrays': [
+                      {'x': [0 / GRID, 6 / GRID, 12 / GRID, 18 / GRID, 24 / GRID],
+                       'gx': [], 'gt': [], 'c': [0, 5]},
+                      {'x': [3 / GRID, 21 / GRID], 'gx': [], 'gt': [], 'c': [0, 2]}]},
+                  'tops': [
+        {'kind': 'leaf', 'attrs': A(), 'eqs': [E(1, 0, [0], 'lp')]},
+        {'kind': 'leaf', 'attrs': A(iter=True, min=2, max=3),
+         'eqs': [E(2, 0, [0], 'in,lp'), E(3, 0, [1], 'lp')]}]})
+    # 9. the same through sub-groups and loop_all, two destinations
+    progs.append({'arrays': ['a0', 'a1'], 'domain': 'none', 'flat': False,
+                  'force': {'conv': {'3': {'v': [False], 'rest': True}}, 'arrays': [
+                      {'x': [0 / GRID, 6 / GRID, 12 / GRID, 18 / GRID],
+                       'gx': [27 / GRID], 'gt': [2], 'c': [0, 4]},
+                      {'x': [3 / GRID, 9 / GRID, 21 / GRID], 'gx': [], 'gt': [], 'c': [0, 3]}]},
+                  'tops': [
+        {'kind': 'leaf', 'attrs': A(pre=True), 'eqs': [E(1, 0, [], 'in'), E(2, 1, [0], 'la')]},
+        {'kind': 'parent', 'attrs': A(iter=True, min=0, max=3, post=True), 'subs': [
+            {'attrs': A(), 'eqs': [E(3, 1, [0], 'la,lp')]},
+            {'attrs': A(real=False), 'eqs': [E(4, 0, [1], 'lp,pl'), E(5, 1, [1], 'la')]}]}]})
     return progs
 
 
@@ -1142,9 +1382,11 @@ def main():
     a = H.args()
     R = H.Result(
         'case = (program, oracle variant): program = flat list / groups / one level of '
-        'sub-groups over 1-3 arrays (hand-made or periodic ghosts), 1-4 equations per group '
-        'with random hook subsets, real, numeric and named start/stop, iterate/min/max, '
-        'condition, pre/post, update_nnps followed by dependent groups; variant = particle '
+        'sub-groups over 1-3 arrays (hand-made ghost/remote particles or periodic ghosts), 1-4 '
+        'equations per group with random hook subsets, real, numeric and named start/stop '
+        '(explicit stops also beyond the number of real particles), iterate/min/max, '
+        'condition, pre/post, update_nnps followed by dependent groups, iterated groups '
+        'entered from a group that ends on the pair their body starts with; variant = particle '
         'positions/counts, named values, scripted condition/convergence outcomes; one '
         'compute(t, dt) per case through the real compiled pipeline; distinct = distinct '
         'case JSON; non-trivial = at least 4 kinds of events and at least 10 calls observed')
@@ -1172,10 +1414,11 @@ def main():
     nvar = 5 if quick else 8
     items = []
     for p in corpus() + corpus_excluded():
-        items.append((p, [gen_variant(rng, p) for _ in range(nvar)]))
+        items.append((p, [gen_variant(rng, p, first=(k == 0)) for k in range(nvar)]))
     R.count('corpus-programs', len(items))
     for k in range(nrand):
-        p = gen_program(rng)
+        # every run has at least one program of the iterated-back-edge shape
+        p = gen_program(rng, 'chain' if k % 8 == 0 else None)
         items.append((p, [gen_variant(rng, p) for _ in range(nvar)]))
     R.count('random-programs', nrand)
     chunk = 40
@@ -1187,7 +1430,7 @@ def main():
         rng2 = random.Random(a.seed + 4242)
         extra = []
         for k in range(16):
-            p = gen_program(rng2)
+            p = gen_program(rng2, 'chain' if k % 4 == 0 else None)
             extra.append((p, [gen_variant(rng2, p) for _ in range(nvar)]))
         run_batch(R, extra, a.work, nproc, tag0=1000)
         R.d['search'] = {'extra_programs': len(extra),
@@ -1202,6 +1445,8 @@ MOD = None
 STATE = None
 SPY_ON = False
 SNAPS = []
+IN_SNAPSHOT = False
+LAST_CTX = None
 
 
 def py_event(a, b, c, d, e, f, t, dt, dst):
